@@ -27,9 +27,17 @@ def dev_plain(nphys):
             "p_int": np.full((nphys, nphys), 1e-2), "t_int": np.full((nphys, nphys), 3e-7), "tm": np.full(nphys, 1e-6), "dt": np.array([2.2e-10])}
 
 
-def build_circuit(nphys, instrs, nclbits):
-    from qiskit import QuantumCircuit
-    qc = QuantumCircuit(nphys, max(1, nclbits), name="circ")   # every circuit carries the same name: a name is not an identity
+def build_circuit(nphys, instrs, nclbits, split=None):
+    """split = (k, c): the qubits live in two quantum registers (k and nphys - k qubits) and the classical bits in two classical
+    registers (c and the rest): qubit / clbit numbers in `instrs` are positions in the CIRCUIT, as everywhere"""
+    from qiskit import QuantumCircuit, QuantumRegister, ClassicalRegister
+    ncl = max(1, nclbits)
+    if split and 0 < split[0] < nphys:
+        regs = [QuantumRegister(split[0], "a"), QuantumRegister(nphys - split[0], "b")]
+        regs += [ClassicalRegister(split[1], "c"), ClassicalRegister(ncl - split[1], "d")] if 0 < split[1] < ncl else [ClassicalRegister(ncl, "c")]
+        qc = QuantumCircuit(*regs, name="circ")
+    else:
+        qc = QuantumCircuit(nphys, ncl, name="circ")   # every circuit carries the same name: a name is not an identity
     for name, qs, extra in instrs:
         if name == "rz": qc.rz(extra, qs[0])
         elif name == "sx": qc.sx(qs[0])
@@ -124,7 +132,7 @@ def capturing_class(cls_name):
     return Capturing
 
 
-def run_spy(cls_name, labels, instrs_with_meas, nphys, dev, psi0=None, shots=1, gates=None):
+def run_spy(cls_name, labels, instrs_with_meas, nphys, dev, psi0=None, shots=1, gates=None, split=None):
     """returns (gate-set call log, result dict, statevector of the (single) shot)"""
     from quantum_gates._simulation.simulator import MrAndersonSimulator
     n = len(labels)
@@ -137,7 +145,7 @@ def run_spy(cls_name, labels, instrs_with_meas, nphys, dev, psi0=None, shots=1, 
     sim, spy = _SIMS[key]
     if hasattr(spy, "log"):
         spy.log = []
-    qc = build_circuit(nphys, instrs_with_meas, sum(1 for i in instrs_with_meas if i[0] == "measure"))
+    qc = build_circuit(nphys, instrs_with_meas, sum(1 for i in instrs_with_meas if i[0] == "measure"), split=split)
     if psi0 is None:
         psi0 = np.zeros(2 ** n); psi0[0] = 1
     del _CAPTURED[:]
